@@ -94,6 +94,8 @@ def failures(sc, res, orc, stats=None):
         elif tag[1] == "check":
             pos_of[i] = (tag[0], tag[2])
     for i, text in orc:
+        if text.startswith(DANGLING):
+            continue   # known finding, reported separately under its key
         if i in pos_of:
             h, pos = pos_of[i]
             if h not in out or pos < out[h][0]:
@@ -129,6 +131,14 @@ def failures(sc, res, orc, stats=None):
                 if len(w) > 5 and w[4] != "v0":
                     stats["histories_vbk_root_moved"] += 1
     return out
+
+
+DANGLING = "dangling-endorsement-backpointers"
+
+
+def dangling_hits(sc, orc):
+    """histories in which the release-build pointer oracle found dangling back pointers"""
+    return [(sc.meta[i][0], text) for i, text in orc if text.startswith(DANGLING) and i in sc.meta]
 
 
 def one_case(binary, work, cfg, registry, ops, mode, save_every, name="case"):
@@ -264,6 +274,12 @@ def run(ctx):
         if mism:
             ctx.broken.append("generator/registry out of step: %s" % (mism[:2],))
         fails = failures(sc, res, orc, stats)
+        for h, text in dangling_hits(sc, orc):
+            stats["histories_with_dangling_backpointers"] += 1
+            g, ops = dict(hs_)[h]
+            # known finding: after ALT/VBK deallocation raw endorsement back pointers dangle (saveTree dereferences them)
+            ctx.violation({"kind": "ops", "cfg": CFG, "registry": list(g.lines), "ops": [list(o) for o in ops],
+                           "mode": mode, "save_every": save_every, "what": text}, key=DANGLING)
         evaluations += count
         stats["mode_%s_save_every_%d" % (mode, save_every)] += count
         byno = dict(hs_)
